@@ -8,7 +8,7 @@ from conda_content_trust import authentication as A, common as C
 
 from vlib import fuzz as FZ, gen_envelope as GE, gen_json as G, gen_metadata as GM, gen_mutate as MU, gen_pyvalues as GP, keys, \
     ref_schema, ref_verify as RV
-from vlib import cfgunit as _cfgunit
+from vlib import cfgunit as _cfgunit, interfere as _interfere, interrupt as _interrupt
 from vlib.runner import REPO, Unit, Violation
 
 PROPERTY = "C14"
@@ -100,6 +100,33 @@ def _mutated(draw):
         muts.append(m)
         cur = r
     return {"doc": doc, "muts": muts}
+
+
+ROLEISH = ("pkg_mgr", "channeler", "repodata_verify", "root.json", "Root", "timestamp", "snapshot", "targets")
+
+
+@st.composite
+def _leaf_mutated(draw):
+    """one boundary edit of one leaf that has a grammar of its own (a key in a delegation, a signature / header / fingerprint
+    string, a time string, a version / threshold): the near-misses of the leaf grammars, inside otherwise valid metadata"""
+    doc = draw(valid_docs().filter(lambda d: any(d["signed"]["delegations"].get(r, {}).get("pubkeys") for r in d["signed"]["delegations"])
+                                   or d["signatures"]))
+    leaves = [p for p in G.paths(doc) if p and type(G.get_path(doc, p)) in (str, int) and p[-1] != "metadata_spec_version"]
+    for _ in range(8):
+        path = list(leaves[draw(st.integers(0, 10 ** 6)) % len(leaves)])
+        if draw(st.integers(0, 9)) == 0:
+            path = ["signed", "type"]
+        node = G.get_path(doc, path)
+        if path == ["signed", "type"] and draw(st.integers(0, 3)) > 0:
+            # names of roles / metadata types that exist around the library but are no supported delegating-metadata type
+            names = [i for i, r in enumerate(MU.REPLACEMENTS) if type(r) is str and r in ROLEISH]
+            return {"doc": doc, "muts": [{"path": path, "op": "replace:%d" % names[draw(st.integers(0, 10 ** 6)) % len(names)]}]}
+        op = ("int:" if type(node) is int else "time:" if (path[-1] in ("expiration", "timestamp") and draw(st.booleans())) else "str:")
+        edits = MU.INT_EDITS if op == "int:" else MU.TIME_EDITS if op == "time:" else MU.STR_EDITS
+        m = {"path": path, "op": op + edits[draw(st.integers(0, 10 ** 6)) % len(edits)]}
+        if MU.apply(doc, m) is not MU.INAPPLICABLE:
+            return {"doc": doc, "muts": [m]}
+    return {"doc": doc, "muts": [{"path": list(leaves[0]), "op": "replace:0"}]}
 
 
 def _mutate(doc, muts):
@@ -240,4 +267,9 @@ UNITS = [
          doc="whatever the checker accepts never makes verify_root / verify_delegation fail outside the documented families"),
     _cfgunit.unit_under_config(PROPERTY, 'mutated', exclude=(), closed_stdout=True, n_cases=40),
     _cfgunit.unit_under_config(PROPERTY, 'accepted', exclude=(), n_cases=4),
+    Unit("leaf_mutated", check_mutated, strategy=_leaf_mutated, quick=1500, thorough=40000, essential=["schema=no"],
+         doc="one boundary edit of one leaf with a grammar of its own (key, signature, header, fingerprint, time, version, threshold) in valid metadata"),
+    _interrupt.unit_interrupted(PROPERTY, 'mutated', quick=24, thorough=600, max_points=120),
+    _interrupt.unit_interrupted(PROPERTY, 'leaf_mutated', quick=60, thorough=1500, max_points=1000, shards_quick=12),
+    _interfere.unit_after(PROPERTY, 'leaf_mutated', quick=800, thorough=20000),
 ]
